@@ -720,9 +720,13 @@ class Connection:
 
     # -- triggers
     def fire(self, event, table, cond, old, new, state):
-        for ev_, tab, body, _name in self.db.triggers:
+        for ev_, tab, body, _name, when in self.db.triggers:
             if ev_ != event or tab != table:
                 continue
+            if when is not None:  # CREATE TRIGGER ... FOR EACH ROW WHEN <expr over OLD / NEW>
+                cond = And(cond, self.evb(when, {'params': [], 'row': None, 'OLD': old, 'NEW': new}).t)
+                if cond is False:
+                    continue
             for st in body:
                 _, ttab, sets, where = st
                 for r in state.tables[ttab]:
@@ -871,9 +875,9 @@ class Connection:
             db.indexes.pop(st[1], None)
             return Cursor([])
         if kind == 'create_trigger':
-            _, name, event, table, body = st
+            _, name, event, table, body, when = st
             if not any(t[3] == name for t in db.triggers):
-                db.triggers.append((event, table, body, name))
+                db.triggers.append((event, table, body, name, when))
             return Cursor([])
         if kind == 'insert':
             return self.do_insert(st, cells, state)
